@@ -149,7 +149,7 @@ fn parse_outcome(text: &str) -> Value {
 }
 /// one faulted token list: {toks}
 fn lef_fault(case: &Value) -> Value {
-    let text = render(geta(case, "toks"), (geti(case, "v") % 3) as u32, (geti(case, "v") % 14) as u32, 0);   // separators 0..4, long multi-byte comment lines 5..13
+    let text = render(geta(case, "toks"), (geti(case, "v") % 3) as u32, (geti(case, "v") % 15) as u32, 0);   // separators 0..5, long multi-byte comment lines 6..14
     let mut o = parse_outcome(&text);
     o["id"] = id(case);
     if o["outcome"] == "panic" { o["text"] = trunc(&json!(text)); }
